@@ -74,7 +74,7 @@ CLAIMED = {
     'C08': ('Theorems over the atmosphere model with regenerated constants: ISA temperature exact, pressure within 1e-4 over the troposphere '
             '(rpow/exp/log bounds), speed-of-sound constant within 1e-4, dry density within 5e-5 (compressibility bounded over the box), '
             'extrapolation law = barometric composition identity, shortcut, clamped pressure base, vacuum zero (also after the humidity setter), humidity normalisation. '
-            'Monotonicity with Z,f live: search only. Tie: bit-exact correspondence of constructor, humidity setter and altitude look-ups (also on the same object before/after the setter).',
+            'Density falls with humidity with Z and the enhancement factor live (polynomial bound over the box). Tie: bit-exact correspondence of constructor, humidity setter and altitude look-ups (also on the same object before/after the setter).',
             'hand Lean model + real-analysis bounds, regenerated constants, bit-exact differential run, ISA/grid oracle',
             '5 C08'),
     'C01': ('Theorems over the integrator model for an arbitrary environment: the loop body IS semi-implicit Euler for the stated vector field (air-relative '
